@@ -19,7 +19,8 @@ RULE = (
     "Hypothesis draws (input file, target format) pairs from the test corpus (files <= 60 kB) and "
     "from multi-frame files written for the purpose, x {-i / -o given or inferred from the name} "
     "x {-c} x {-m} x output {absent, pre-existing with other content}; the converter runs as a "
-    "subprocess (python -m iodata) and through iodata.__main__.convert(); the reference is the "
+    "subprocess (python -m iodata) and through iodata.__main__.convert() (also repeatedly in one "
+    "process on an input path whose content is rewritten and finally removed); the reference is the "
     "corresponding API call sequence (load_one+dump_one or load_many+dump_many with the same "
     "formats and allow_changes). Oracle: exit 0 => the API succeeds and the two outputs are "
     "byte-identical; exit != 0 => non-empty stderr naming an error, and if the API fails "
@@ -232,11 +233,90 @@ def shard_pairs(ctx, max_examples, focus="any"):
     drive(ctx, strat, lambda s: check_case(s, tmpdir), max_examples, shrink=False, name=f"pairs_{focus}")
 
 
+def check_rewritten(spec, tmpdir):
+    """The converter function called repeatedly in one process on an input path whose content
+    changes in between (and finally disappears): every call must do what the API calls do for the
+    content present at that moment."""
+    from iodata import dump_many, dump_one, load_many, load_one
+
+    import iodata.__main__ as cli
+
+    root = corpus_dir()
+    fmt_in, fmt_out, many = spec["fmt_in"], spec["fmt_out"], spec["many"]
+    contents = [open(os.path.join(root, name), "rb").read() for name in spec["files"]]
+    infile = os.path.join(tmpdir, "input." + fmt_in)
+    out_cli = os.path.join(tmpdir, OBJ.filename(fmt_out, "rw_cli"))
+    out_api = os.path.join(tmpdir, OBJ.filename(fmt_out, "rw_api"))
+    problems = []
+    for step, content in enumerate(contents + [None]):
+        if content is None:
+            os.remove(infile)
+        else:
+            with open(infile, "wb") as fh:
+                fh.write(content)
+        results = []
+        for which, out in (("api", out_api), ("cli", out_cli)):
+            if os.path.exists(out):
+                os.remove(out)
+            with warnings.catch_warnings(record=True):
+                warnings.simplefilter("always")
+                try:
+                    if which == "cli":
+                        cli.convert(infile, out, many, None, None, True)
+                    elif many:
+                        dump_many(load_many(infile), out, allow_changes=True)
+                    else:
+                        dump_one(load_one(infile), out, allow_changes=True)
+                    status = "ok"
+                except Exception as exc:  # noqa: BLE001
+                    status = "error"
+                    del exc
+            data = open(out, "rb").read() if os.path.exists(out) else None
+            results.append((status, data))
+        if results[0] != results[1]:
+            problems.append(
+                Problem("C18/stale_or_different_after_rewrite",
+                        f"call #{step + 1} on the same path ({'input removed' if content is None else spec['files'][step]}): "
+                        f"API {results[0][0]}, converter {results[1][0]}, outputs {'equal' if results[0][1] == results[1][1] else 'differ'}")
+            )
+            break
+    for path in (infile, out_cli, out_api):
+        if os.path.exists(path):
+            os.remove(path)
+    return problems, True, ["rewritten_input", f"many:{many}"]
+
+
+REWRITE_SETS = {
+    "xyz": ["water.xyz", "water_element.xyz", "water_trajectory.xyz"],
+    "pdb": ["water_single.pdb", "ch5plus.pdb", "water_trajectory.pdb"],
+    "sdf": ["example.sdf", "formamide.sdf"],
+    "mol2": ["benzene.mol2", "water.mol2", "caffeine.mol2"],
+}
+
+
+def shard_rewritten(ctx):
+    root = corpus_dir()
+    have = set(os.listdir(root))
+    for fmt_in, files in sorted(REWRITE_SETS.items()):
+        files = [f for f in files if f in have]
+        if len(files) < 2:
+            ctx.skipped[f"rewrite_set_incomplete:{fmt_in}"] += 1
+            continue
+        for fmt_out in ("xyz", "pdb", "sdf", "mol2"):
+            for many in (False, True):
+                for order in (files, files[::-1]):
+                    spec = {"kind": "rewritten", "fmt_in": fmt_in, "fmt_out": fmt_out, "many": many, "files": list(order)}
+                    problems, nontrivial, labels = check_rewritten(spec, ctx.tmpdir)
+                    ctx.record(spec, nontrivial, labels)
+                    ctx.report(spec, problems)
+
+
 def shards(tier, seed):
     big = tier == "thorough"
     out = [(f"pairs{i}", "shard_pairs", {"max_examples": 260 if big else 20}) for i in range(9)]
     out += [(f"many{i}", "shard_pairs", {"max_examples": 260 if big else 20, "focus": "many"}) for i in range(3)]
     out += [(f"conv{i}", "shard_pairs", {"max_examples": 260 if big else 20, "focus": "conversion"}) for i in range(3)]
+    out.append(("rewritten", "shard_rewritten", {}))
     return out
 
 
@@ -246,6 +326,8 @@ def replay(entry):
 
     tmpdir = tempfile.mkdtemp(prefix="ivp_c18_replay_")
     try:
+        if entry["spec"].get("kind") == "rewritten":
+            return check_rewritten(entry["spec"], tmpdir)[0]
         return check_case(entry["spec"], tmpdir)[0]
     finally:
         shutil.rmtree(tmpdir, ignore_errors=True)
